@@ -17,6 +17,7 @@ import (
 	"path/filepath"
 	"runtime"
 	"runtime/pprof"
+	"sort"
 	"strings"
 	"sync"
 
@@ -53,6 +54,17 @@ type Input struct {
 	VerifyH   int                        `json:"verify_hasher,omitempty"`  // o7: hasher given to the verifier (0 = default)
 	E2E       *E2E                       `json:"e2e,omitempty"`
 	VP        *VPSpec                    `json:"verify_proof,omitempty"`
+	Loader    int                        `json:"loader,omitempty"`  // which document loader the case uses (0 = main)
+	History   []HistStep                 `json:"history,omitempty"` // calls made earlier in the same process, in order
+}
+
+// HistStep is an earlier issuance + binding check in the same process, possibly
+// through another document loader that serves other documents under the same URLs.
+type HistStep struct {
+	Loader   int                        `json:"loader"`
+	Contexts map[string]json.RawMessage `json:"contexts,omitempty"`
+	Cred     json.RawMessage            `json:"credential"`
+	Opts     credgen.Opts               `json:"options"`
 }
 
 // result of running one case on the implementation
@@ -90,6 +102,7 @@ type gen struct {
 	cfg    *common.Config
 	rep    *common.Report
 	env    *credgen.Env
+	envs   []*credgen.Env // document loaders by index; envs[0] == env
 	recs   []*rec
 	alt    []merklize.Hasher
 }
@@ -99,14 +112,26 @@ func newGen(cfg *common.Config) *gen {
 	// ToCoreClaim(ctx, nil) has no way to receive merklizer options: it uses the package default
 	// document loader, which is pointed at the offline loader (public API)
 	merklize.SetDocumentLoader(g.env.Loader)
+	g.envs = []*credgen.Env{g.env, credgen.NewEnv(), credgen.NewEnv()}
 	for _, p := range hashers.TreePrimes() {
 		g.alt = append(g.alt, hashers.Mod{P: p})
 	}
 	return g
 }
 
-func (g *gen) mzOpts(h int) []merklize.MerklizeOption {
-	o := g.env.MerklizeOpts()
+func (g *gen) envOf(ld int) *credgen.Env {
+	if ld < 0 || ld >= len(g.envs) {
+		return g.env
+	}
+	return g.envs[ld]
+}
+
+func (g *gen) mzOpts(h int, ld ...int) []merklize.MerklizeOption {
+	e := g.env
+	if len(ld) > 0 {
+		e = g.envOf(ld[0])
+	}
+	o := e.MerklizeOpts()
 	if h > 0 && h <= len(g.alt) {
 		o = append(o, merklize.WithHasher(g.alt[h-1]))
 	}
@@ -156,7 +181,7 @@ func parseSlots(ss []string) ([8]*big.Int, error) {
 }
 
 // issue plays the issuer: ToCoreClaim, decoded with the harness's own decoder.
-func (g *gen) issue(vc *verifiable.W3CCredential, o credgen.Opts, nilOpts bool, h int) (cls string, slots [8]*big.Int, msg string) {
+func (g *gen) issue(vc *verifiable.W3CCredential, o credgen.Opts, nilOpts bool, h int, ld ...int) (cls string, slots [8]*big.Int, msg string) {
 	defer func() {
 		if r := recover(); r != nil {
 			cls, msg = "panic", fmt.Sprint(r)
@@ -165,7 +190,7 @@ func (g *gen) issue(vc *verifiable.W3CCredential, o credgen.Opts, nilOpts bool, 
 	var opts *verifiable.CoreClaimOptions
 	if !nilOpts {
 		opts = &verifiable.CoreClaimOptions{RevNonce: o.RevNonce, Version: o.Version, SubjectPosition: o.Subject,
-			MerklizedRootPosition: o.Root, Updatable: o.Upd, MerklizerOpts: g.mzOpts(h)}
+			MerklizedRootPosition: o.Root, Updatable: o.Upd, MerklizerOpts: g.mzOpts(h, ld...)}
 	}
 	cl, err := vc.ToCoreClaim(bg, opts)
 	if err != nil {
@@ -179,7 +204,7 @@ func (g *gen) issue(vc *verifiable.W3CCredential, o credgen.Opts, nilOpts bool, 
 }
 
 // check runs the binding check.
-func (g *gen) check(vc *verifiable.W3CCredential, slots [8]*big.Int, h int) (cls string, msg string) {
+func (g *gen) check(vc *verifiable.W3CCredential, slots [8]*big.Int, h int, ld ...int) (cls string, msg string) {
 	defer func() {
 		if r := recover(); r != nil {
 			cls, msg = "panic", fmt.Sprint(r)
@@ -189,7 +214,7 @@ func (g *gen) check(vc *verifiable.W3CCredential, slots [8]*big.Int, h int) (cls
 	if err != nil {
 		return "skipped", err.Error()
 	}
-	err = vc.VerifVerifyCoreClaim(bg, cl, g.mzOpts(h))
+	err = vc.VerifVerifyCoreClaim(bg, cl, g.mzOpts(h, ld...))
 	if err != nil {
 		return "reject", err.Error()
 	}
@@ -199,20 +224,27 @@ func (g *gen) check(vc *verifiable.W3CCredential, slots [8]*big.Int, h int) (cls
 // exact: the property's first sentence, evaluated with the public API and the
 // harness's own decoder only: re-deriving the claim from the credential with
 // the positions, nonce, version and flags carried by the claim reproduces it.
-func (g *gen) exact(vc *verifiable.W3CCredential, slots [8]*big.Int, h int) bool {
+func (g *gen) exact(vc *verifiable.W3CCredential, slots [8]*big.Int, h int, ld ...int) bool {
 	rb := readBack(slots)
 	if !rb.OK {
 		return false
 	}
-	cls, s, _ := g.issue(vc, credgen.Opts{RevNonce: rb.Nonce, Version: rb.Version, Subject: rb.Subject, Root: rb.Root, Upd: rb.Upd}, false, h)
+	cls, s, _ := g.issue(vc, credgen.Opts{RevNonce: rb.Nonce, Version: rb.Version, Subject: rb.Subject, Root: rb.Root, Upd: rb.Upd}, false, h, ld...)
 	return cls == "ok" && slotsEqual(s, slots)
 }
 
 func (g *gen) register(in *Input) {
-	for u, d := range in.Contexts {
-		if string(g.env.Loader.Raw(u)) != string(d) {
-			_ = g.env.Loader.Add(u, d)
+	reg := func(ld int, ctxs map[string]json.RawMessage) {
+		l := g.envOf(ld).Loader
+		for u, d := range ctxs {
+			if string(l.Raw(u)) != string(d) {
+				_ = l.Add(u, d)
+			}
 		}
+	}
+	reg(in.Loader, in.Contexts)
+	for _, h := range in.History {
+		reg(h.Loader, h.Contexts)
 	}
 }
 
@@ -224,14 +256,22 @@ func (g *gen) exec(in *Input) result {
 		r.issueClass, r.issueMsg, r.class = "err", "credential does not parse: "+err.Error(), "skipped"
 		return r
 	}
+	// earlier calls of the same process (the implementation must not remember anything from them)
+	for _, h := range in.History {
+		if hv, err := parseVC(h.Cred); err == nil {
+			if cls, s, _ := g.issue(hv, h.Opts, false, 0, h.Loader); cls == "ok" {
+				g.check(hv, s, 0, h.Loader)
+			}
+		}
+	}
 	// the issuance of one (credential, options) pair is shared by all its modifications
 	ob, _ := json.Marshal(in.Opts)
-	key := fmt.Sprintf("%s|%s|%v|%d", in.Cred, ob, in.NilOpts, in.Hasher)
+	key := fmt.Sprintf("%s|%s|%v|%d|%d", in.Cred, ob, in.NilOpts, in.Hasher, in.Loader)
 	g.mu.Lock()
 	ic, hit := g.issued[key]
 	g.mu.Unlock()
-	if !hit || in.Kind == "complete" {
-		ic.cls, ic.slots, ic.msg = g.issue(vc, in.Opts, in.NilOpts, in.Hasher)
+	if !hit || in.Kind == "complete" || len(in.History) > 0 {
+		ic.cls, ic.slots, ic.msg = g.issue(vc, in.Opts, in.NilOpts, in.Hasher, in.Loader)
 		g.mu.Lock()
 		g.issued[key] = ic
 		g.mu.Unlock()
@@ -275,14 +315,14 @@ func (g *gen) exec(in *Input) result {
 	if in.Kind == "o7" {
 		vh = in.VerifyH
 	}
-	r.class, r.msg = g.check(target, r.claim, vh)
+	r.class, r.msg = g.check(target, r.claim, vh, in.Loader)
 	if r.class == "skipped" {
 		return r
 	}
 	r.verified = true
 	r.accept = r.class == "accept"
 	if !in.Bound || in.Kind == "complete" || in.Kind == "o7" || os.Getenv("C06_EXACT_ALL") != "" {
-		ex := g.exact(target, r.claim, vh)
+		ex := g.exact(target, r.claim, vh, in.Loader)
 		r.exact = &ex
 	}
 	return r
@@ -352,6 +392,9 @@ func (g *gen) count(in *Input, r *result) {
 	rep := g.rep
 	rep.Evaluations++
 	k := in.Kind
+	if len(in.History) > 0 || in.Loader != 0 {
+		k = "history-" + k
+	}
 	if in.E2E != nil {
 		k = "e2e-" + in.E2E.Kind
 		if in.E2E.Proof == "smt" {
@@ -423,7 +466,7 @@ func (g *gen) runAll(ins []*Input, coq func(i int) bool) {
 		if in.VP != nil {
 			g.rep.Count("vp-request:" + r.class)
 		}
-		if len(g.rep.Samples) < 8 && (i%97 == 0) {
+		if i == 0 || i == len(ins)/2 {
 			g.rep.Sample(map[string]any{"kind": in.Kind, "schema": in.Schema, "site": in.Site, "options": in.Opts,
 				"issue": r.issueClass, "binding_check": r.class, "message": r.msg})
 		}
@@ -633,6 +676,32 @@ func (g *gen) generate() {
 
 	// 6. VerifyProof's order of steps on bundles with several proof objects
 	g.runAll(g.generateVP(schs), func(int) bool { return true })
+
+	// 7. histories: the same context URLs and type resolving differently through two loaders
+	g.runAll(g.generateHistory(), func(int) bool { return true })
+
+	// observations that are not failures (readings recorded in coq/Claim/README_Binding.md)
+	var optAcc, optAll, idAcc, o7rej, e2eOpt int
+	for _, r := range g.recs {
+		in := r.in
+		switch {
+		case in.Kind == "claim" && optionField(in.Field):
+			optAll++
+			if r.res.accept {
+				optAcc++
+			}
+		case in.Kind == "doc" && in.Site == "change:id" && r.res.accept:
+			idAcc++
+		case in.Kind == "o7" && in.VerifyH != in.Hasher && !r.res.accept:
+			o7rej++
+		case in.E2E != nil && in.E2E.Kind == "claim" && optionField(in.Field) && r.res.e2eAccept != nil && !*r.res.e2eAccept:
+			e2eOpt++
+		}
+	}
+	g.rep.Notes = append(g.rep.Notes,
+		fmt.Sprintf("nonce/version/updatable are options read back from the claim: %d of %d such single-field changes pass the binding check alone (the claim of the same credential under other options); %d such changes were rejected end to end by the signature / inclusion proof", optAcc, optAll, e2eOpt),
+		fmt.Sprintf("the credential's own top-level id is the object of no statement: %d changes of it accepted (site change:id, not required to be rejected)", idAcc),
+		fmt.Sprintf("reading note O7: %d credentials issued under a non-default hasher rejected by a verifier using the default one (merklizer options are not carried by the claim)", o7rej))
 }
 
 // ---------------------------------------------------------------------------
@@ -647,6 +716,39 @@ func limbsList(s [8]*big.Int) string {
 		l = append(l, coqgen.Limbs(x))
 	}
 	return "[" + strings.Join(l, "; ") + "]"
+}
+
+func rawvCoq(f *coqgen.File, r *credgen.RawV) string {
+	if r == nil {
+		return "None"
+	}
+	return "(Some (" + r.Coq(f) + "))"
+}
+
+// viewCoq renders `mk_cred ...` (constructors of Claim/Run.v) with the term list given by name.
+func viewCoq(f *coqgen.File, v credgen.View, ctxName string) string {
+	mz := "None"
+	if v.MzOK {
+		var keys []string
+		for k := range v.Fields {
+			keys = append(keys, k)
+		}
+		sort.Strings(keys)
+		var fl []string
+		for _, k := range keys {
+			fl = append(fl, fmt.Sprintf("(%s, %s)", f.Str(k), coqgen.OptLimbs(v.Fields[k])))
+		}
+		mz = fmt.Sprintf("(Some (mk_mz %s %s %s [%s]))", rawvCoq(f, v.CsType), rawvCoq(f, v.TopType), coqgen.Limbs(v.Root), strings.Join(fl, "; "))
+	}
+	subj := "None"
+	if v.Subject != nil {
+		subj = "(Some " + f.Str(*v.Subject) + ")"
+	}
+	exp := "None"
+	if v.Exp != nil {
+		exp = "(Some " + coqgen.SNumI(*v.Exp) + ")"
+	}
+	return fmt.Sprintf("mk_cred %s %s %s %s", mz, subj, exp, ctxName)
 }
 
 func (g *gen) writeShards() error {
@@ -668,30 +770,28 @@ func (g *gen) writeShards() error {
 		var credDefs []string
 		ctxIdx := map[string]string{}
 		var ctxDefs []string
-		viewOf := func(vcJSON []byte, paths []string) (int, error) {
-			if i, ok := credIdx[string(vcJSON)]; ok {
+		viewOf := func(vcJSON []byte, paths []string, ld int) (int, error) {
+			ckey := fmt.Sprintf("%d|%s", ld, vcJSON)
+			if i, ok := credIdx[ckey]; ok {
 				return i, nil
 			}
 			vc, err := parseVC(vcJSON)
 			if err != nil {
 				return 0, err
 			}
-			v := g.env.ViewOf(vc, paths)
+			v := g.envOf(ld).ViewOf(vc, paths)
 			or.Note(v)
-			// term lists are shared between the credentials of one @context array
-			ck := strings.Join(vc.Context, " ")
+			// term lists are shared between the credentials of one @context array (per loader)
+			ck := fmt.Sprintf("%d|%s", ld, strings.Join(vc.Context, " "))
 			cn, ok := ctxIdx[ck]
 			if !ok {
 				cn = fmt.Sprintf("ctx%d", len(ctxIdx))
 				ctxIdx[ck] = cn
 				ctxDefs = append(ctxDefs, fmt.Sprintf("Definition %s := %s.", cn, credgen.TermsCoq(f, v.Terms, v.CtxOK)))
 			}
-			full := v.Coq(f)
-			// replace the inline term list by the shared definition
-			inline := credgen.TermsCoq(f, v.Terms, v.CtxOK)
-			full = strings.TrimSuffix(full, inline) + cn
+			full := viewCoq(f, v, cn)
 			i := len(credIdx)
-			credIdx[string(vcJSON)] = i
+			credIdx[ckey] = i
 			credDefs = append(credDefs, fmt.Sprintf("Definition cred%d := %s.", i, full))
 			return i, nil
 		}
@@ -703,7 +803,7 @@ func (g *gen) writeShards() error {
 				if res.vp == nil || res.vp.class == "skipped" || res.vp.class == "panic" {
 					continue
 				}
-				ci, err := viewOf(in.Cred, in.Paths)
+				ci, err := viewOf(in.Cred, in.Paths, in.Loader)
 				if err != nil {
 					continue
 				}
@@ -723,7 +823,7 @@ func (g *gen) writeShards() error {
 				continue
 			}
 			if in.Kind == "complete" {
-				ci, err := viewOf(in.Cred, in.Paths)
+				ci, err := viewOf(in.Cred, in.Paths, in.Loader)
 				if err != nil {
 					continue
 				}
@@ -742,7 +842,7 @@ func (g *gen) writeShards() error {
 			if !res.verified {
 				continue
 			}
-			ci, err := viewOf(res.vcJSON, in.Paths)
+			ci, err := viewOf(res.vcJSON, in.Paths, in.Loader)
 			if err != nil {
 				continue
 			}
